@@ -1081,7 +1081,7 @@ mod bounded {
                   "<!-- -- --><a/>", "<a><!-- x</a>", "<a><!--x--->y</a>", "<?xml version=\"1.1\"?><a/>", "<?xml version=\"2.0\"?><a/>", "<!DOCTYPE a><a/>", "<!DOCTYPE a [<!ENTITY e \"x\">]><a>&e;</a>",
                   "<a><![CDATA[x</a>", "<a>]]></a>", "<a>&#0;</a>", "<a>&#xD800;</a>", "<a>&#xFFFE;</a>", "<a>&#x110000;</a>", "<a>&#x;</a>", "<a>&#;</a>", "<a>&#x1g;</a>", "<a>&#+65;</a>", "<a>&nbsp;</a>",
                   "<a xml:id=\"i\"><b xml:id=\"i\"/></a>", "<a xml:id=\"i\"><b xml:id=\" i \"/></a>", "<a><?pi</a>", "<a><?xml x?></a>", "<p:a/>", "<a p:x=\"1\"/>", "<a xmlns:p=\"u\"><q:b/></a>",
-                  "<a xmlns:p=\"u&bogus;\"/>", "<a xmlns:p=\"u\" xmlns:p=\"u\"/>", "<a x=\"1\" x=\"1\"/>", "<a><b x=\"1\" y=\"2\" x=\"3\"/></a>", "<a>\u{0}</a>", "<a>\u{1}</a>", "<a>\u{ffff}</a>", "<?xml version=\"1.0\"?>", "<a/><!--", "<a></a></a>"] {
+                  "<a xmlns:p=\"u&bogus;\"/>", "<a xmlns:p=\"u\" xmlns:p=\"u\"/>", "<a x=\"1\" x=\"1\"/>", "<a><b x=\"1\" y=\"2\" x=\"3\"/></a>", "<a>\u{0}</a>", "<a>\u{1}</a>", "<a>\u{ffff}</a>", "<?xml version=\"1.0\"?>", "<a/><!--", "<a></a></a>", "<a/></a>", "x</a>", "<a/></b>", "<b/></a>"] {
             v.push(format!("R|{}", d));
         }
         for l in ["UTF-8", "utf-8", "ISO-8859-1", "windows-1252", "US-ASCII", "foo", "UTF-16", "UTF-16LE", "UTF-32", "EBCDIC-CP-US", "x-user-defined", "", "replacement", "UTF-7", "Shift_JIS", "KOI8-R"] {
@@ -1097,6 +1097,10 @@ mod bounded {
             let r = std::panic::catch_unwind(|| { let mut xot = Xot::new(); xot.parse_bytes(&bytes).is_ok() });
             return match r { Err(_) => Some(format!("parse_bytes panics on a document declaring encoding {:?}", doc)), Ok(_) => None };
         }
+        // the fragment parser must not panic on anything either, and must refuse stray close tags
+        let fr = std::panic::catch_unwind(|| { let mut xot = Xot::new(); xot.parse_fragment(doc).is_ok() });
+        match fr { Err(_) => return Some(format!("parse_fragment panics on {:?}", doc)),
+            Ok(ok) => { if ok && kind == "R" && (doc.starts_with("</") || doc.ends_with("</a>") && doc.matches("</a>").count() > doc.matches("<a>").count() + doc.matches("<a ").count()) { return Some(format!("parse_fragment accepts the stray close tag in {:?}", doc)); } } }
         let r = std::panic::catch_unwind(|| {
             let mut xot = Xot::new();
             match xot.parse(doc) {
